@@ -51,18 +51,23 @@ def mk_record(j):
 
 
 def mk_reference(rid):
+    """reference number `rid`: odd ones are published (their own title and PubMed id), even ones are the classic
+    unpublished entry (title 'Direct Submission', no identifier) and differ from one another in authors and journal only"""
     from Bio.SeqFeature import Reference
     r = Reference()
-    r.title = "title %s" % rid
     r.authors = "author %s" % rid
     r.journal = "journal %s" % rid
-    r.pubmed_id = str(rid)
+    if int(rid) % 2:
+        r.title = "title %s" % rid
+        r.pubmed_id = str(1000 + int(rid))
+    else:
+        r.title = "Direct Submission"
     return r
 
 
 def ref_id(r):
     try:
-        return int(r.pubmed_id)
+        return int(r.authors.split()[1])
     except Exception:
         return repr(r)
 
